@@ -187,3 +187,78 @@ contract(
     ],
     modifies=["max_iterations", "memory_limit"],
 )
+
+
+# ===== bounded stand-in (labelled bounded, never counted as proved): HillClimb neighbour sets and end-to-end allocation ==============
+# HillClimbAllocator.__init__ builds lrs_at_time (list of lists) and neighbour lists with sets of objects, search() permutes index
+# lists with a random generator: outside the executor's subset in this revision. The same clauses are evaluated natively on the
+# real code for EVERY instance of a small scope.
+from pyvc import replay as _rp  # noqa: E402
+
+
+def _hillclimb_small_scope(tier, seed):
+    import itertools
+    from ethosu.vela.live_range import LiveRange as _LR
+    T = 3 if tier == "quick" else 4
+    sizes = (16, 48) if tier == "quick" else (16, 48, 80)
+    intervals = [(s, e) for s in range(T + 1) for e in range(s, T + 1)]
+    shapes = [(s, e, z) for (s, e) in intervals for z in sizes]
+    out = dict(name="HillClimbAllocator: neighbour relation of __init__ and live => disjoint / aligned / reported total of allocate()",
+               label="bounded",
+               bound="all multisets of 2 and 3 live ranges with start <= end in 0..%d, size in %r, alignment 16 (+ one mixed-alignment family), "
+                     "max_iterations in (None, 0, 3), native evaluation of the real code" % (T, sizes),
+               cases=0, violations=[], known_lines=[])
+    bad = []
+
+    def mk(spec, align=16):
+        lrs = []
+        for (s, e, z) in spec:
+            lr = _LR(None, align)
+            lr.start_time, lr.end_time, lr.size = s, e, z
+            lrs.append(lr)
+        return lrs
+
+    def check(spec, max_it, align=16):
+        lrs = mk(spec, align)
+        a = hc.HillClimbAllocator(lrs, max_it, 1 << 40)
+        for i, x in enumerate(a.lrs):
+            want = {j for j, y in enumerate(a.lrs) if j != i and x.start_time <= y.end_time and y.start_time <= x.end_time}
+            got = {y.id for y in x.neighbours}
+            if got != want or len(x.neighbours) != len(got):
+                return "neighbours of range %d are %r, live-together set is %r" % (i, sorted(got), sorted(want))
+        addrs = a.allocate()
+        for i, (s, e, z) in enumerate(spec):
+            if addrs[i] < 0 or addrs[i] % align != 0:
+                return "range %d placed at %r (alignment %d)" % (i, addrs[i], align)
+            for j in range(i):
+                s2, e2, z2 = spec[j]
+                if s <= e2 and s2 <= e and not (addrs[i] + z <= addrs[j] or addrs[j] + z2 <= addrs[i]):
+                    return "ranges %d and %d are live together and overlap: [%d,%d) [%d,%d)" % (j, i, addrs[j], addrs[j] + z2, addrs[i], addrs[i] + z)
+        if a.best_size != max(ad + z for ad, (_s, _e, z) in zip(addrs, spec)):
+            return "reported size %r is not the highest end address %r" % (a.best_size, max(ad + z for ad, (_s, _e, z) in zip(addrs, spec)))
+        return None
+
+    for n in (2, 3):
+        for spec in itertools.combinations_with_replacement(shapes, n):
+            for max_it in ((None,) if n == 3 and tier == "quick" else (None, 0, 3)):
+                out["cases"] += 1
+                msg = check(spec, max_it)
+                if msg and len(bad) < 5:
+                    bad.append("HillClimbAllocator(%r, max_iterations=%r): %s" % (list(spec), max_it, msg))
+    for spec in itertools.combinations_with_replacement([(s, e, 24) for (s, e) in intervals], 3):
+        out["cases"] += 1
+        msg = check(spec, None, align=32)
+        if msg and len(bad) < 5:
+            bad.append("HillClimbAllocator(%r, alignment 32): %s" % (list(spec), msg))
+    if bad:
+        import json
+        import os
+        d = os.path.join(_rp.OUT, "replays", "C05")
+        os.makedirs(d, exist_ok=True)
+        path = os.path.join(d, "bounded_hillclimb_small_scope.json")
+        json.dump(dict(property="C05", obligation="bounded:hillclimb small scope", failures=bad), open(path, "w"), indent=1)
+        out["violations"].append("VIOLATION property=C05 replay=%s" % path)
+    return out
+
+
+_rp.BOUNDED_HOOKS.setdefault("C05", []).append(_hillclimb_small_scope)
